@@ -9,6 +9,7 @@
    case (8 vprogs)             -> (0 (outcome...))                 : vsession vcfg_gen [] (function-variant sessions; the guard
                                                                      configuration is the one the inventory reads off the source)
    case (9 srcs ops)           -> (0 ((outs)?...))                 : esession mk_gen srcs ops [] (parse()/emit() sessions over glyph scripts)
+   case (10 o labels has_void) -> (0 (0 label) | (1))              : merge_ret (sigma_rank o) (the join of the return types of a function; (1) = ValueError)
    vprog: (((f (ret...))...) ((v f t)...))   ret: (0) the parameter | (1 t) a literal of type t     outcome: (1) rejected | (0 ((v t)...) ((f t r)...))
    snode: (0 lcd slot (rows)) | (1 text)     eop: (0 i) parse | (1 i) emit     eout: (0 lcd n slot (vals)) | (1 text)
    hcall: (0 indent var value) _emit_duration_ms | (1 value) _format_float     value: (0 n) | (1 (num den)) | (2 b) | (3 text)
@@ -20,7 +21,7 @@
    node:  (0 x t) decl | (1 x) assign | (2 (body...)) if | (3 body) while | (4 v body) for | (5 (body...)) try *)
 From Coq Require Import ZArith List Bool.
 From RV Require Import Base.Wire Base.Text Lang.Order Lang.DevSession Lang.MemoSession Gen.SetSites Lang.OrderSites.
-From RV Require Import Lang.EmitSession Lang.VariantSession Gen.PuritySites Lang.PuritySites.
+From RV Require Import Lang.EmitSession Lang.VariantSession Gen.PuritySites Lang.PuritySites Lang.RetJoin.
 Import ListNotations.
 Open Scope Z_scope.
 
@@ -344,6 +345,11 @@ Definition run (v : wv) : wv :=
   | WL [WI 9; WL srcs; WL ops] =>
       match dec_ssrcs srcs, dec_eops ops with
       | Some ss, Some os => wok [WL (map (wopt (fun o => WL (map enc_eout o))) (esession mk_gen ss os []))]
+      | _, _ => wbad
+      end
+  | WL [WI 10; o; labels; WI hv] =>
+      match un_tlist o, un_tlist labels with
+      | Some o, Some l => wok [match merge_ret (sigma_rank o) l (negb (hv =? 0)) with JTy t => WL [WI 0; wtext t] | JErr => WL [WI 1] end]
       | _, _ => wbad
       end
   | _ => wbad
